@@ -45,4 +45,6 @@ def run(rep, kf, tier, seed):
                        + ["assumed library contract: " + t for t in libmodels.TRUSTED])
     rep.assumptions.append("machine arithmetic: Python ints are unbounded (exact); floats are reals plus inf/-inf/nan; "
                            "float(int) overflows beyond the double range")
+    from props.common import engine_b_crosscheck
+    engine_b_crosscheck(rep, tier, convert_value=True)
     return {"level": "proof"}
